@@ -345,6 +345,24 @@ def _receive_cer(ctx: Ctx, model, nc, P, K):
     if od and ".lower()" not in ast.unparse(od[0].ast.value):
         ctx.fail("receive_cer:unknown-peer#case", g.loc(od[0]), "the Origin-Host is not compared "
                  "case-insensitively with the configured peers")
+    # the table the lower-cased Origin-Host is looked up in is filled with lower-cased names
+    cons = "add_peer:table-key#case"
+    ctx.inst(cons)
+    ap = nc.methods.get("add_peer")
+    if ap is None:
+        ctx.error("Node.add_peer not found", rule="C06-R3")
+    else:
+        ctx.use(ap)
+        for st in A.walk_no_nested(ap.node):
+            if isinstance(st, ast.Assign):
+                for t in st.targets:
+                    if isinstance(t, ast.Subscript) and A.dotted(t.value) == "self.peers":
+                        ktxt = A.resolve_local_chain(ap.node, t.slice)
+                        if not ktxt.endswith(".lower()"):
+                            ctx.fail(cons, ap.loc(st), f"add_peer stores the peer under `{ktxt}` (as "
+                                     f"written in the URI) while receive_cer looks the lower-cased "
+                                     f"Origin-Host up in self.peers: a peer configured with upper-case "
+                                     f"letters is answered 3010 although it is known")
     # 5010
     cons = "receive_cer:no-common-application"
     ctx.inst(cons)
